@@ -56,6 +56,14 @@ Fixpoint oexpr_close (a b : oexpr (T:=Q)) : bool :=
          | a1 :: l', b1 :: m' => oexpr_close a1 b1 && go l' m'
          | _, _ => false
          end) l m
+  | OPSO cs rs l, OPSO cs' rs' m =>
+      nats_eqb cs cs' && nats_eqb rs rs' &&
+      (fix go (l m : list (nat * nat * oexpr (T:=Q))) : bool :=
+         match l, m with
+         | [], [] => true
+         | (i, j, a1) :: l', (i', j', b1) :: m' => Nat.eqb i i' && Nat.eqb j j' && oexpr_close a1 b1 && go l' m'
+         | _, _ => false
+         end) l m
   | _, _ => false
   end.
 
